@@ -49,6 +49,18 @@ def run_canary(c, scratch):
     except SystemExit as e:
         return {"name": c["name"], "verdict": "does-not-compile", "detail": str(e)}
     F = factsmod.Facts(d)
+    if c.get("benign"):
+        # behaviour-preserving edit: none of the given properties' tables may report anything new
+        res = {"name": c["name"], "verdict": "silent", "false_alarms": []}
+        known = {(k["property"], k["key"]) for k in engine.load_known().get("findings", [])}
+        for prop in c["props"]:
+            rc, ctx = engine.run_property(prop, "quick", F=F, quiet=True, write=False)
+            for i in ctx.instances:
+                if i.verdict in ("violation", "anchor-missing") and (prop, i.key) not in known:
+                    res["false_alarms"].append("%s %s: %s" % (i.id, i.key, (i.detail or "")[:160]))
+        if res["false_alarms"]:
+            res["verdict"] = "FALSE-ALARM"
+        return res
     res = {"name": c["name"], "verdict": "fired", "fired": [], "missed": []}
     by_prop = {}
     for e in c["expect"]:
@@ -64,7 +76,10 @@ def run_canary(c, scratch):
 
 
 def run_for_property(prop, only=None):
-    cs = [c for c in canaries() if any(e.split(".")[0].split("/")[0] == prop for e in c["expect"])]
+    allc = canaries()
+    props = engine.PROPS if prop == "BENIGN" else [prop]
+    cs = [] if prop == "BENIGN" else [c for c in allc if any(e.split(".")[0].split("/")[0] == prop for e in c["expect"])]
+    cs += [dict(c, benign=True, props=props) for c in allc if not c["expect"]]
     if only:
         cs = [c for c in cs if c["name"] in only]
     if not cs:
@@ -80,9 +95,9 @@ def run_for_property(prop, only=None):
             results.append(run_canary(c2, scratch))
     finally:
         shutil.rmtree(scratch, ignore_errors=True)
-    bad = [r for r in results if r["verdict"] != "fired"]
+    bad = [r for r in results if r["verdict"] not in ("fired", "silent")]
     for r in results:
-        print("  canary %-40s %s %s" % (r["name"], r["verdict"], r.get("fired") or r.get("detail", "")))
+        print("  canary %-40s %s %s" % (r["name"], r["verdict"], r.get("fired") or r.get("false_alarms") or r.get("detail", "")))
     # append to the evidence file written by the quick part of this run
     ep = os.path.join(VERIF, "evidence", "%s.json" % prop)
     try:
@@ -90,7 +105,8 @@ def run_for_property(prop, only=None):
         ev["tier"] = "thorough"
         ev["coverage"]["canaries"] = results
         ev["coverage"]["canaries_run"] = len(results)
-        ev["coverage"]["canaries_fired"] = len(results) - len(bad)
+        ev["coverage"]["canaries_fired"] = sum(1 for r in results if r["verdict"] == "fired")
+        ev["coverage"]["benign_edits_silent"] = sum(1 for r in results if r["verdict"] == "silent")
         ev["wall_s"] = round(ev.get("wall_s", 0) + time.time() - t0, 1)
         json.dump(ev, open(ep, "w"), indent=1)
     except Exception:
